@@ -347,6 +347,17 @@ def build_catalogue(check, seed, size):
         cat.append(op)
         twins.append({'op': 'marshal', 'frame': op['frame']})
     if check in ('C12', 'C16'):
+        # bodies handed over as bytearray (the caller's own buffer) and as
+        # memoryview, marshalled directly and as held objects
+        for bi, n in enumerate((0, 1, 7, 300, 5000)):
+            for flag in ('mutable', 'view'):
+                d = {'k': 'body', 'ch': 1 + bi, flag: True,
+                     'parts': [{'b': (bytes([65 + bi]) * n).hex()}]}
+                gi = 600 + bi
+                cat.append({'op': 'marshal', 'frame': d, 'confusable': gi})
+                cat.append({'op': 'construct', 'frame': d,
+                            'confusable': gi})
+                twins.append({'op': 'marshal', 'frame': d})
         # the all-defaults payload of every method class, decoded (twice in
         # a history: a decoder may treat "nothing but defaults" specially)
         for ci, name in enumerate(classes):
@@ -825,6 +836,14 @@ def gen_trace(rng, check, population, tier, cat):
                                 prog.append({'op': 'tz',
                                              'zone': r.choice(ZONES)})
                             prog.append({'op': 'marshal_slot', 'ref': ref})
+                        continue
+                    if check == 'C16' and c2 > 0.88:
+                        # keep a part of a decoded result, drop the rest
+                        dec = [c_ for c_ in cands if (
+                            threads[c_[0]] if c_[0] < len(threads) else prog)
+                            [c_[1]]['op'] == 'unmarshal']
+                        prog.append({'op': 'keep_part',
+                                     'ref': list(r.choice(dec or cands))})
                         continue
                     if c2 < (0.40 if check == 'C16' else 0.25):
                         prog.append({'op': 'mutate', 'ref': ref,
